@@ -124,6 +124,58 @@ def struct(t):
     return [type(t).__name__, fs, ps, [struct(a) for a in t.args]]
 
 
+def _head(s):
+    """coarse description of the root of a struct(): leaf / class of a control construct / op/arity for a term
+    whose functor is an operator symbol or keyword / id/arity for a plain compound term"""
+    if not isinstance(s, list) or not s:
+        return repr(s)
+    if s[0] in ("none", "bool", "int", "var", "other", "const"):
+        return "leaf"
+    if s[0] == "seq":
+        return "seq/%d" % (len(s) - 1)
+    if s[0] != "Term":
+        return s[0]
+    fs = s[1]
+    kind = "op"
+    if isinstance(fs, list) and len(fs) == 2 and isinstance(fs[1], str):
+        name = fs[1].strip("'")
+        if re.match(r"^[a-z][A-Za-z0-9_]*$", name) and name not in ("not", "is", "mod", "rem", "xor", "rdiv", "div"):
+            kind = "id"
+    if kind == "id" and not s[3]:
+        return "leaf"
+    return "%s/%d" % (kind, len(s[3]))
+
+
+def diff_signature(s1, s2):
+    """where two struct() fingerprints first differ (pre-order): 'original node > re-parsed node'.  Part of the
+    symptom of a round-trip mismatch, so that shrinking keeps the KIND of difference and a new kind of difference is
+    never filed under an old finding."""
+    if s1 == s2:
+        return "same"
+    if (not isinstance(s1, list)) or (not isinstance(s2, list)) or not s1 or not s2 or s1[0] != s2[0]:
+        return "%s>%s" % (_head(s1), _head(s2))
+    if s1[0] == "seq":
+        if len(s1) != len(s2):
+            return "%s>%s" % (_head(s1), _head(s2))
+        for a, b in zip(s1[1:], s2[1:]):
+            if a != b:
+                return diff_signature(a, b)
+    if s1[0] in ("none", "bool", "int", "var", "const", "other"):
+        if s1[0] == "const" and s1[1] == s2[1] and s1[2] == s2[2]:
+            return "annotation:" + diff_signature(s1[3], s2[3]) if s1[3] is not None and s2[3] is not None else "annotation-lost"
+        return "%s>%s" % (_head(s1), _head(s2))
+    if _head(s1) != _head(s2) or s1[1] != s2[1]:
+        return "%s>%s" % (_head(s1), _head(s2))
+    if s1[2] != s2[2]:
+        if s1[2] is None or s2[2] is None:
+            return "annotation-%s@%s" % ("lost" if s2[2] is None else "gained", _head(s1))
+        return "annotation:" + diff_signature(s1[2], s2[2])
+    for a, b in zip(s1[3], s2[3]):
+        if a != b:
+            return diff_signature(a, b)
+    return "?"
+
+
 _REWRITTEN_NON_NAME = re.compile(r"^(?![a-z][A-Za-z0-9_]*_[np]$)(?!'.*'$)(?!'[^']*'_[np]$).*_[np]$")
 
 
@@ -207,7 +259,7 @@ def roundtrip(src):
        ("print-crash", cls, site)
        ("reparse-crash", out, text) the printed text makes the parser crash (totality violation on `text`)
        ("reparse-error", cls, text)
-       ("mismatch", text, text2)
+       ("mismatch", text, text2, difference signature)
        ("ok", text)"""
     from ..plrun import classify_exception
 
@@ -236,7 +288,7 @@ def roundtrip(src):
             text2 = print_program(t2)
         except Exception:  # noqa
             text2 = "?"
-        return ("mismatch", text, text2)
+        return ("mismatch", text, text2, diff_signature(struct(t1), struct(t2)))
     # printing must not depend on the history of the term: print every subterm bottom-up first (what a
     # debugger, a logger or an error message does), then the whole clause, on a fresh parse
     out3 = run_parse(src)
@@ -273,7 +325,9 @@ def _print_subterms(t, depth=0):
 def rt_symptom(v):
     if v[0] == "print-crash":
         return "print-crash:%s@%s" % (v[1], v[2])
-    if v[0] in ("reparse-error", "mismatch"):
+    if v[0] == "mismatch":
+        return "roundtrip-mismatch[%s]" % v[3]
+    if v[0] == "reparse-error":
         return "roundtrip-" + v[0]
     if v[0] == "history":
         return "print-depends-on-history"
@@ -565,7 +619,7 @@ def ctor_roundtrip(d):
             text2 = print_program(t2)
         except Exception:  # noqa
             text2 = "?"
-        return ("mismatch", text, text2)
+        return ("mismatch", text, text2, diff_signature(struct([t]), struct(t2)))
     # printing must not depend on the history of the term: on a freshly built term print every
     # subterm bottom-up first, then the whole
     try:
